@@ -70,7 +70,11 @@ fn dual_sum(case: &Case, alpha: &[f64], x: &[f64], sv_thr: f64) -> (f64, f64, f6
 /// signatures must never mask an obligation of the plain solver.
 fn mk_sig(shrunk: bool, s: &str) -> String {
     if shrunk {
-        format!("shrink:{}", s.split(':').next().unwrap_or(s))
+        let group = match s.split(':').next().unwrap_or(s) {
+            "rho" | "alpha" | "nu-svc" => "not-finite",
+            g => g,
+        };
+        format!("shrink:{group}")
     } else {
         s.to_string()
     }
@@ -133,7 +137,21 @@ fn classify(case: &Case, obs: &mut Obs) {
 /// `shrink:` so that findings of the shrinking code path never mask the plain solver's obligations.
 pub fn check(case: &Case, obs: &mut Obs) {
     classify(case, obs);
-    let ex = match run::fit(case) {
+    let t0 = std::time::Instant::now(); // diagnostics only (C13_DEBUG), never enters a verdict
+    let fitted = run::fit(case);
+    if std::env::var("C13_DEBUG").is_ok() && t0.elapsed().as_secs_f64() > 0.7 {
+        let disp = match &fitted {
+            FitOutcome::Model(e) => e.display.clone(),
+            _ => "-".into(),
+        };
+        eprintln!(
+            "C13_DEBUG slow fit {:.1}s: n={} p={} kernel={:?} eps={} shrinking={} layout={:?} task={} :: {}",
+            t0.elapsed().as_secs_f64(), case.n(), case.x.first().map(|r| r.len()).unwrap_or(0), case.kernel, case.eps, case.shrinking, case.layout,
+            match &case.task { Task::CSvc{cpos,cneg,..} => format!("CSvc({cpos},{cneg})"), Task::NuSvc{nu,..} => format!("NuSvc({nu})"), Task::EpsSvr{c,loss_eps,..} => format!("EpsSvr({c},{loss_eps})"), Task::NuSvr{nu,c,..} => format!("NuSvr({nu},{c})"), Task::OneClass{nu} => format!("OneClass({nu})") },
+            disp
+        );
+    }
+    let ex = match fitted {
         FitOutcome::Model(e) => e,
         FitOutcome::Error(e) => {
             // the generator only produces valid hyper-parameters; the plain fits have no error path
@@ -248,7 +266,7 @@ fn judge(case: &Case, ex: &Extract, obs: &mut Obs, shrunk: bool) {
     };
 
     // ---- shape, Display, nsupport
-    if !obs.ensure(ex.alpha.len() == n, &sig("alpha:length"), || {
+    if !obs.ensure(ex.alpha.len() == n, &sig("shape:alpha-length"), || {
         format!("{} coefficients published for {} samples", ex.alpha.len(), n)
     }) {
         return;
@@ -549,6 +567,10 @@ fn judge(case: &Case, ex: &Extract, obs: &mut Obs, shrunk: bool) {
     // ---- (3) KKT, only for runs the solver itself declares converged
     if !disp.threshold {
         obs.skip("iteration_cap_reached");
+        if std::env::var("C13_DEBUG").is_ok() {
+            eprintln!("C13_DEBUG iteration cap: n={} kernel={:?} eps={} shrinking={} single={} layout={:?} task={}", n, case.kernel, case.eps, case.shrinking, case.single, case.layout,
+                match &case.task { Task::CSvc{cpos,cneg,..} => format!("CSvc({cpos},{cneg})"), Task::NuSvc{nu,..} => format!("NuSvc({nu})"), Task::EpsSvr{c,loss_eps,..} => format!("EpsSvr({c},{loss_eps})"), Task::NuSvr{nu,c,..} => format!("NuSvr({nu},{c})"), Task::OneClass{nu} => format!("OneClass({nu})") });
+        }
         return;
     }
     obs.class("exit_threshold");
@@ -670,9 +692,11 @@ fn judge(case: &Case, ex: &Extract, obs: &mut Obs, shrunk: bool) {
             }
         }
     }
-    obs.class_if(worst > 0.5, "kkt_residual_over_half_of_tolerance");
-    obs.class_if(worst_eps > 0.5, "kkt_residual_over_1_eps");
-    obs.class_if(worst_eps > 1.0, "kkt_residual_over_2_eps_drift_slack_used");
+    if !shrunk {
+        obs.class_if(worst > 0.5, "kkt_residual_over_half_of_tolerance");
+        obs.class_if(worst_eps > 0.5, "kkt_residual_over_1_eps");
+        obs.class_if(worst_eps > 1.0, "kkt_residual_over_2_eps_drift_slack_used");
+    }
 
     // ---- non-trivial rule
     let nt = nfree >= 1 && nbounded >= 1;
